@@ -29,11 +29,15 @@ func vhOpenGraph() {
 			collide = -1
 		}
 	}
+	sameSerial := vChoose("sameSerial", 2) == 1
 	for i := 0; i < n; i++ {
 		alias[i] = names[i]
 		parent[i] = vChoose(vName("parent", i), n+2) - 1
 		base := names[i]
 		body := "version: 1\nsubject: CN=" + names[i] + "\n"
+		if sameSerial {
+			body += "serialNumber: 5\n" // a pinned serial number has nothing to do with the alias
+		}
 		explicit := vChoose(vName("explicit", i), 2) == 1
 		if i == collide {
 			alias[i] = alias[0]
